@@ -81,15 +81,24 @@ impl BisyncEngine {
     ) -> Result<BisyncResult> {
         let start = std::time::Instant::now();
 
-        // 1. Open state database
-        let mut state_db = BisyncStateDb::open(source, dest)?;
+        // 1. Open state database (a dry run only reads an existing one and creates nothing)
+        let mut state_db = if opts.dry_run {
+            BisyncStateDb::open_read_only(source, dest)?
+        } else {
+            Some(BisyncStateDb::open(source, dest)?)
+        };
 
-        if opts.clear_state {
-            state_db.clear_all()?;
+        if opts.clear_state && !opts.dry_run {
+            if let Some(db) = state_db.as_mut() {
+                db.clear_all()?;
+            }
         }
 
-        // 2. Load prior state
-        let prior_state = state_db.load_all()?;
+        // 2. Load prior state (empty when there is no database, or when a dry run simulates --clear-bisync-state)
+        let prior_state = match state_db.as_ref() {
+            Some(db) if !(opts.dry_run && opts.clear_state) => db.load_all()?,
+            _ => Default::default(),
+        };
 
         // 3. Scan both sides
         let source_scanner = Scanner::new(source);
@@ -120,7 +129,9 @@ impl BisyncEngine {
             let (stats, errors) = execute_actions(source, dest, &resolved)?;
 
             // 9. Update state database
-            update_state(&mut state_db, &resolved)?;
+            if let Some(db) = state_db.as_mut() {
+                update_state(db, &resolved)?;
+            }
 
             (stats, errors)
         };
